@@ -12,7 +12,7 @@
 EXTENDS Naturals, Sequences, TLC, Json, IOUtils
 
 Rec == ndJsonDeserialize(IOEnv.TRACE)
-MaxBad == 40
+MaxBad == 400
 VARIABLES l, bad
 tvars == <<l, bad>>
 
